@@ -4,6 +4,7 @@
    reorders the phases, or adds a panic site breaks one of these obligations. *)
 From Coq Require Import ZArith List String Lia.
 From FxV Require Import model.M_EndBlock model.M_Tally gen.Gen_EndBlock proofs.P_EndBlock proofs.P_Tally.
+From FxV Require Import lib.Dec model.M_Gov proofs.P_Gov proofs.P_Gov2 proofs.P_Gov3.
 Import ListNotations.
 Open Scope Z_scope.
 
@@ -51,7 +52,7 @@ Print Assumptions C07_powerdiff_format_parses.
    bonded total, voting power, abstain share, quorum and outcome of the uninterpreted conditions, no division
    has a zero divisor *)
 Theorem C07_tally_never_divides_by_zero : forall i others,
-  wf_in i -> run gen_tally_steps i others <> TPanic.
+  wf_in i -> M_Tally.run gen_tally_steps i others <> TPanic.
 Proof. intros i others H. apply (safe_sound gen_tally_steps no_facts i others H (no_facts_hold i)). vm_compute. reflexivity. Qed.
 Print Assumptions C07_tally_never_divides_by_zero.
 
@@ -63,9 +64,20 @@ Print Assumptions C07_tally_loop_divisors.
 (* non-vacuity / sensitivity: hoisting the veto division above the all-abstain guard halts the chain on an
    unvoted proposal once quorum is 0 *)
 Theorem C07_tally_hoisted_division_panics :
-  wf_in unvoted /\ run steps_hoisted unvoted [] = TPanic /\ safe steps_hoisted no_facts = false.
+  wf_in unvoted /\ M_Tally.run steps_hoisted unvoted [] = TPanic /\ safe steps_hoisted no_facts = false.
 Proof. exact hoisted_panics. Qed.
 Print Assumptions C07_tally_hoisted_division_panics.
+
+(* gov end blocker (model M_Gov of x/gov, see Prop_C15): after ANY history of submit / deposit / vote / end-block
+   operations in which no passed proposal spends from the governance module account, closing proposals (refund or
+   burn of every deposit, tally, message execution on a cache branch) never fails.  Without that guard it does fail:
+   known finding C15-2, which this check reproduces on the real FinalizeBlock on every run. *)
+Theorem C07_gov_endblock_total : forall P kf b c ops s ev t stk,
+  Forall op_no_govsend ops ->
+  run P kf (init b c) ops = (s, ev) ->
+  end_block P kf t stk s <> None.
+Proof. exact end_block_never_fails. Qed.
+Print Assumptions C07_gov_endblock_total.
 
 (* the defect this property had (fixed in /repo, see KNOWN_FINDINGS.json): with the rendered record handed
    to SlashOracle by the bridge-call loop a perfectly ordinary state halts the chain *)
